@@ -278,7 +278,7 @@ func (e *Exec) Sort(t *Type) string {
 	case KSlice:
 		es := e.Sort(t.Elem)
 		n := "Seq!" + mangle(es)
-		e.vc.Decl("sort:"+n, fmt.Sprintf("(declare-datatypes ((%s 0)) (((mk!%s (arr!%s (Array Int %s)) (len!%s Int)))))", n, n, n, es, n))
+		e.vc.Decl("sort:"+n, fmt.Sprintf("(declare-datatypes ((%s 0)) (((mk!%s (arr!%s (Array Int %s)) (rawlen!%s Int)))))\n(define-fun len!%s ((s!l %s)) Int (ite (< (rawlen!%s s!l) 0) 0 (rawlen!%s s!l)))", n, n, n, es, n, n, n, n, n))
 		return n
 	case KStruct:
 		n := "S!" + mangle(t.Name)
